@@ -154,6 +154,7 @@ def main(prop, tier="quick", replay=None, collect=False):
     seed = int(os.environ.get("VERIF_SEED", "1"))
     if collect:
         os.environ["PVS_COLLECT"] = "1"
+    os.environ.setdefault("PVS_HYP_SHRINK", "1" if tier == "thorough" else "0")
     mod = load_module(prop)
     if replay is not None:
         rec = json.load(open(replay))
